@@ -72,6 +72,15 @@ func checkRunTraces(c *core.Ctx, worker string, ps []*gen.Project, cfg string, s
 		} else if kf := knownFor(c, tr); kf != nil {
 			c.ReportKnown(kf, fmt.Sprintf("(%s in run %s, %s)", tr.Violated, tr.Case.P.Name, dayText(tr.Event["zeit"])))
 			c.CoverAdd("known_finding_cases", 1)
+			// the rest of that trace is still judged by every other statement of the property
+			if drop := knownDrops[kf.ID]; len(drop) > 0 {
+				if again := revalidateWithout(c, tr.Case, "Trace_Run", cfg, drop); again != nil && again.Violated != "" {
+					rd := saveProjectReplay(c, again, cfg, nil)
+					c.Violate(fmt.Sprintf("%s violated in run %s at trace line %d (%s, date %s) [beside the known finding %s]", again.Violated, again.Case.P.Name, again.Line, eventSummary(again.Event), dayText(again.Event["zeit"]), kf.ID), rd)
+				} else if again != nil && again.OK {
+					c.TracesOK++
+				}
+			}
 		} else if tr.Violated != "" {
 			rd := saveProjectReplay(c, tr, cfg, nil)
 			what := fmt.Sprintf("%s violated in run %s at trace line %d (%s, date %s)", tr.Violated, tr.Case.P.Name, tr.Line, eventSummary(tr.Event), dayText(tr.Event["zeit"]))
@@ -121,6 +130,9 @@ func checkC01(c *core.Ctx) {
 	c.Cover("rule", "one case per generated project run (soil, weather, schedule drawn from VERIF_SEED); non-trivial = trace consumed to the end with at least one simulated day")
 }
 
+// knownDrops: the statements a listed finding breaks; a run that met the finding is validated again without them.
+var knownDrops = map[string][]string{"H21-conductivity-negative-low-bulk-density": {"C19_Stable", "C19_Envelope"}}
+
 // knownFor matches a trace violation against the listed known findings of the property (read-only file).
 // A finding matches by invariant name and a predicate on the generating description; anything else stays a violation.
 func knownFor(c *core.Ctx, tr *traceResult) *core.Finding {
@@ -136,6 +148,18 @@ func knownFor(c *core.Ctx, tr *traceResult) *core.Finding {
 		return false
 	}
 	switch c.ID {
+	case "C19":
+		// only profiles with a measured bulk density below 0.567 g/cm3 (3*BD - 1.7 < 0) and only the two statements
+		// the negative conductivity breaks
+		low := false
+		for _, h := range tr.Case.P.Soil.Horizons {
+			if h.Bulk100 > 0 && h.Bulk100 < 57 {
+				low = true
+			}
+		}
+		if low && (tr.Violated == "C19_Stable" || tr.Violated == "C19_Envelope") {
+			return c.KnownFinding("H21-conductivity-negative-low-bulk-density")
+		}
 	case "C04":
 		// only the call sites in Run() that drop the error of LoadYear()/WetterK(): the series ends before the run does,
 		// or a one-file-per-year input has a hole (WetterK reports it, Run() ignores it)
